@@ -247,6 +247,21 @@ pub fn run(ctx: &mut Ctx) {
         c02::run_one(ctx, my, &spec);
         ctx.count("fresh:directory-pack");
     }
+    // directory packs whose entries carry deferred values (references to the final position of other
+    // entries): what the independent decoder recovers must be the positions the writer was asked for —
+    // unsorted and sorted stores, every reference pattern
+    let n_rf = if ctx.quick() { 10 } else { 60 };
+    for k in 0..n_rf {
+        let my = case;
+        case += 1;
+        if !ctx.wants(my) {
+            continue;
+        }
+        let mut crng = rng.fork(my);
+        let ne = [30usize, 300, 2, 70, 257, 12, 1, 600, 40, 5][k % 10] + crng.below(7) as usize;
+        crate::c15::refs_case(ctx, my, &mut crng, ne, k % 2 == 1, (k % 5) as u64, [0u64, 5, 13, 14, 1][k % 5]);
+        ctx.count("fresh:directory-pack-with-references");
+    }
     let n_ct = if ctx.quick() { 6 } else { 40 };
     for k in 0..n_ct {
         let my = case;
